@@ -259,4 +259,11 @@ where
     | none => (s, .err "no-ts")
     | some o => let (fl, o, a) := f s.sfile o; ({ s with sfile := fl, sobj := some o }, a)
 
+/-- the trace of the model on a list of operations: each with the model's answer -/
+def traceFrom (s : State) : List Op → List (Op × Ans)
+  | [] => []
+  | op :: ops => let r := step s op; (op, r.2) :: traceFrom r.1 ops
+
+def traceOf (crc : Bytes → Nat) (ops : List Op) : List (Op × Ans) := traceFrom (State.init crc) ops
+
 end Influx.Tsm
